@@ -19,6 +19,7 @@ pub const EMFILE: i32 = 24;
 pub const ENOSPC: i32 = 28;
 pub const EPIPE: i32 = 32;
 pub const ENOENT: i32 = 2;
+pub const EAGAIN: i32 = 11;
 
 #[derive(Clone, Debug, PartialEq, Serialize, Deserialize)]
 pub enum Mode {
@@ -81,12 +82,12 @@ pub struct Viol {
 const KEYS: &[&str] = &["a", "b", "k", "x1", "iffy", "nullable", "value_1", "value_2", "my key", "", "ключ", "Z_9", "android", "outputs", "inputs", "value_3", "p", "q"];
 
 fn gen_jv(rng: &mut Rng, depth: u32) -> JV {
-    match rng.below(if depth >= 2 { 5 } else { 7 }) {
+    match rng.below(if depth >= 2 { 5 } else { 8 }) {
         0 => JV::Null,
         1 => JV::Bool(rng.chance(1, 2)),
         2 => JV::Num(rng.range(-50, 1000) as f64),
         3 => JV::Num(*rng.pick(&[0.5, 1.25, -3.75, 1e6, 123456.789, 0.001, -0.0, 9007199254740992.0, 1e-7, 123456789012345.0])),
-        4 => JV::Str((*rng.pick(&["", "x", "héllo", "a b", "q\\z", "line", "12", "true", "ü"])).to_string()),
+        4 => JV::Str((*rng.pick(&["", "x", "héllo", "a b", "q\\z", "line", "12", "true", "ü", "say \"hi\"", "line1\nline2", "tab\there", "it's", "😀 emoji", "{\"not\":\"json\"}"])).to_string()),
         5 => JV::List((0..rng.below(4)).map(|_| gen_jv(rng, depth + 1)).collect()),
         _ => {
             let mut f = vec![];
@@ -161,7 +162,7 @@ fn gen_input_doc(rng: &mut Rng) -> String {
 fn gen_script(rng: &mut Rng, inputs_hint: &[String], world: &[(String, JV)]) -> Vec<CStmt> {
     // mostly short scripts; sometimes long ones (longer than a path component / a pipe chunk)
     let long = rng.chance(1, 6);
-    let n = if long { rng.range(12, 40) as usize } else { rng.range(1, 9) as usize };
+    let n = if long { rng.range(12, 40) as usize } else if rng.chance(1, 25) { 0 } else { rng.range(1, 9) as usize };
     let extra: Vec<String> = (0..48).map(|i| format!("v{}", i)).collect();
     let mut names: Vec<&str> = vec!["p", "q", "res", "total", "iffy2", "nil_count", "out1", "v"];
     if long {
@@ -184,7 +185,8 @@ fn gen_script(rng: &mut Rng, inputs_hint: &[String], world: &[(String, JV)]) -> 
                 // usually, not an input): `#name` is `inputs.name`, never the binding
                 let k = if !bound.is_empty() && rng.chance(1, 5) { rng.pick(bound).0.clone() } else { any_key(rng) };
                 if crate::hast::is_ident(&k) {
-                    if rng.chance(1, 2) { (CE::InDot(k), false) } else { (CE::InRef(k), false) }
+                    let base = if rng.chance(1, 2) { CE::InDot(k) } else { CE::InRef(k) };
+                    if rng.chance(1, 3) { (CE::Wrap(rng.below(4) as u8, Box::new(base)), false) } else { (base, false) }
                 } else if !k.contains('"') {
                     (CE::InIdx(k), false)
                 } else {
@@ -319,7 +321,43 @@ pub fn gen_scenario(rng: &mut Rng) -> Scenario {
         _ => Mode::EvalStdin,
     };
     let nflags = rng.range(0, 4) as usize;
-    let flags: Vec<String> = (0..nflags).map(|_| gen_input_doc(rng)).collect();
+    let mut flags: Vec<String> = vec![];
+    for _ in 0..nflags {
+        // sometimes a document that overlaps an earlier one key by key (nested records with
+        // fewer / other / more members, null, arrays, scalars in place of objects)
+        let derived = if !flags.is_empty() && rng.chance(1, 3) {
+            let src: String = flags[rng.usize_below(flags.len())].clone();
+            match serde_json::from_str::<serde_json::Value>(&src) {
+                Ok(serde_json::Value::Object(o)) if !o.is_empty() => {
+                    let mut f = vec![];
+                    for (k, v) in o.iter() {
+                        if rng.chance(1, 4) {
+                            continue;
+                        }
+                        let nv = match JV::from_serde(v) {
+                            JV::Rec(inner) => match rng.below(4) {
+                                0 => JV::Rec(inner.into_iter().filter(|_| rng.chance(1, 2)).collect()),
+                                1 => JV::Rec(vec![]),
+                                2 => {
+                                    let mut i2 = inner;
+                                    i2.push(("extra".into(), JV::Num(1.0)));
+                                    JV::Rec(i2)
+                                }
+                                _ => JV::Null,
+                            },
+                            _ => gen_jv(rng, 1),
+                        };
+                        JV::rec_insert(&mut f, k, nv);
+                    }
+                    Some(JV::Rec(f).to_json())
+                }
+                _ => None,
+            }
+        } else {
+            None
+        };
+        flags.push(derived.unwrap_or_else(|| gen_input_doc(rng)));
+    }
     let stdin = if mode == Mode::EvalStdin {
         StdinKind::DevNull // replaced by the script at invocation time
     } else {
@@ -474,6 +512,7 @@ pub fn invocation(sc: &Scenario) -> Invocation {
         out_suffix: "out.json".into(),
         aslr_off: sc.aslr_off,
         out_path,
+        extra_env: vec![],
     }
 }
 
@@ -787,6 +826,18 @@ pub fn enumerate_plans(sc: &Scenario, base: &RunResult, rng: &mut Rng) -> Vec<(S
     // ---- hard ---------------------------------------------------------------------------
     for call in 1..=rd0 {
         out.push(("hard:read-eio:0".into(), with_rules(sc, vec![Rule::RErr { cls: "0".into(), call, errno: EIO, times: 1 }])));
+        out.push(("hard:read-eagain:0".into(), with_rules(sc, vec![Rule::RErr { cls: "0".into(), call, errno: EAGAIN, times: 1 }])));
+    }
+    // a short write followed by an error on the next call (partial delivery, then failure)
+    for errno in [EAGAIN, ENOSPC] {
+        for chunk in [1u32, 5] {
+            if wr1 > 0 {
+                out.push((format!("hard:short-write-then-errno{}:1", errno), with_rules(sc, vec![Rule::WChunks { cls: "1".into(), sizes: vec![chunk], star: true }, Rule::WErr { cls: "1".into(), call: 2, errno, times: 1 }])));
+            }
+            if wrout > 0 {
+                out.push((format!("hard:short-write-then-errno{}:out", errno), with_rules(sc, vec![Rule::WChunks { cls: "out".into(), sizes: vec![chunk], star: true }, Rule::WErr { cls: "out".into(), call: 2, errno, times: 1 }])));
+            }
+        }
     }
     for call in 1..=rdsrc {
         out.push(("hard:read-eio:src".into(), with_rules(sc, vec![Rule::RErr { cls: "src".into(), call, errno: EIO, times: 1 }])));
@@ -801,7 +852,7 @@ pub fn enumerate_plans(sc: &Scenario, base: &RunResult, rng: &mut Rng) -> Vec<(S
         }
     }
     for call in 1..=wr1 {
-        for errno in [ENOSPC, EPIPE, EIO] {
+        for errno in [ENOSPC, EPIPE, EIO, EAGAIN] {
             out.push((format!("hard:write-errno{}:1", errno), with_rules(sc, vec![Rule::WErr { cls: "1".into(), call, errno, times: 1 }])));
         }
     }
@@ -811,7 +862,7 @@ pub fn enumerate_plans(sc: &Scenario, base: &RunResult, rng: &mut Rng) -> Vec<(S
         }
     }
     for call in 1..=wrout {
-        for errno in [ENOSPC, EIO] {
+        for errno in [ENOSPC, EIO, EAGAIN] {
             out.push((format!("hard:write-errno{}:out", errno), with_rules(sc, vec![Rule::WErr { cls: "out".into(), call, errno, times: 1 }])));
         }
     }
@@ -843,7 +894,7 @@ pub fn enumerate_plans(sc: &Scenario, base: &RunResult, rng: &mut Rng) -> Vec<(S
             Rule::WChunks { cls: "out".into(), sizes: vec![rng.range(1, 5) as u32], star: false },
         ];
         match rng.below(4) {
-            0 => rules.push(Rule::WErr { cls: "1".into(), call: rng.range(1, 12) as u32, errno: *rng.pick(&[ENOSPC, EPIPE, EIO]), times: 1 }),
+            0 => rules.push(Rule::WErr { cls: "1".into(), call: rng.range(1, 12) as u32, errno: *rng.pick(&[ENOSPC, EPIPE, EIO, EAGAIN]), times: 1 }),
             1 => rules.push(Rule::WErr { cls: "out".into(), call: rng.range(1, 12) as u32, errno: ENOSPC, times: 1 }),
             2 => rules.push(Rule::RErr { cls: "0".into(), call: rng.range(1, 12) as u32, errno: EIO, times: 1 }),
             _ => {
